@@ -111,6 +111,8 @@ def check_call(contract: Contract, call: Callable[[], Any], ns_args: Dict[str, A
             out.detail = "returned normally although the condition of %s holds" % xname
             return out
     ns.__dict__["result"] = result
+    if contract.qualname.endswith(".__init__"):
+        ns.__dict__["self"] = result  # the harness calls the class; the constructed object is `self`
     try:
         post = contract.clauses("post", ns)
     except Exception as e:
